@@ -96,6 +96,21 @@ def make_listing(rng: random.Random, style: str) -> List[L.SInst]:
     return insts
 
 
+def share_equal_subtrees(node, seen=None):
+    """The same pattern with every later dict/list sub-tree that equals an earlier one replaced by that earlier OBJECT, so
+    that the YAML dump writes it once with an anchor and refers to it by alias."""
+    import json
+    seen = {} if seen is None else seen
+    if isinstance(node, (dict, list)):
+        key = json.dumps(node, sort_keys=False, default=str)
+        if key in seen:
+            return seen[key]
+        out = {k: share_equal_subtrees(v, seen) for k, v in node.items()} if isinstance(node, dict) else [share_equal_subtrees(v, seen) for v in node]
+        seen[key] = out
+        return out
+    return node
+
+
 def _near(rng, op: str) -> str:
     if op.startswith("$0x"):
         return op + rng.choice("08")
@@ -124,6 +139,11 @@ class Driver:
         self.judge_model = judge_model
         self.on_parser_disagreement = None
         self.allow_empty = allow_empty
+        self.crlf_twin = 0.08
+        self.reuse_twin = 0.08
+        self.alias_twin = 0.25        # equal sub-trees of a rule written once and referred to by a YAML alias (same object twice)
+        self.compile_twice = 0.08
+        self.other_listing = None     # path of a copy of the previous listing of this shard
         self.count_model_nontrivial = False
         self.macros = None
         self.ws = real.Workspace()
@@ -131,6 +151,7 @@ class Driver:
         self.prep: Optional[dsl.Prepared] = None
 
     FLAGSETS = [(False, False), (True, False), (False, True), (True, True)]
+    LOG_LEVELS = ["warning"] * 7 + ["info"] + ["debug"] * 2      # ambient state: what --info / --debug set on jasm's logger
 
     def new_listing(self, style=None):
         ctx = self.ctx
@@ -141,6 +162,8 @@ class Driver:
             prep = dsl.Prepared(self.ws, insts, ctx.rng)
             ctx.ran()
             if prep.verify(self.ws):
+                if self.prep is not None:
+                    self.other_listing = self.ws.write("other.s", self.prep.text)
                 self.prep = prep
                 self.style = style
                 return prep
@@ -176,11 +199,16 @@ class Driver:
             doc = {}
             if mn or op or ctx.rng.random() < 0.2:
                 doc["config"] = {"mnemonics-full-match": mn, "operands-full-match": op}
-            doc["pattern"] = pattern
+            doc["pattern"] = share_equal_subtrees(pattern) if ctx.rng.random() < self.alias_twin else pattern
             text = real.dump_rule(doc)
+            if "*id0" in text:
+                ctx.event("rules_written_with_yaml_aliases")
             if "@" in text and not self.macros:
                 ctx.event("skipped_macro_reference_without_macro_file")     # '@any' is only a wildcard when the macro file is given
                 return False
+            level = ctx.rng.choice(self.LOG_LEVELS)
+            real.set_log_level(level)
+            ctx.event("cases_run_with_log_level_" + level)
             try:
                 import time as _t
                 _t0 = _t.time()
@@ -192,6 +220,8 @@ class Driver:
             except M.Unsupported as e:
                 ctx.inconc(f"model unsupported: {str(e)[:40]}")
                 return False
+            finally:
+                real.set_log_level("warning")
             ctx.ran()
             if o.status == "timeout":
                 ctx.inconc("regex engine timeout (JASM's 60 s budget)")
@@ -214,6 +244,46 @@ class Driver:
                 if key is None and self.classify:
                     key = self.classify(yaml.safe_load(text), prep, o)
                 ctx.disagreement(dsl.case_doc(text, prep, desc), o.why + (f" | regex={o.regex}" if o.regex and len(o.regex) < 600 else ""), key)
+            if o.status == "ok" and o.found_real and "\r" not in prep.text and ctx.rng.random() < self.crlf_twin:
+                # presentation twin: the same listing with CRLF line ends holds the same instructions
+                p2 = self.ws.write("crlf.s", prep.text.replace("\n", "\r\n").encode())
+                r2 = real.match(self.ws.path("rule.yaml"), p2, ret="list", search="all", only_addr=False, macros=self.macros)
+                ctx.ran()
+                ctx.event("crlf_twins_compared")
+                if r2[0] != "ok" or list(r2[1]) != o.hits:
+                    c = dsl.case_doc(text, prep, desc + " / CRLF twin")
+                    c["crlf"] = True
+                    ctx.disagreement(c, f"same rule, same instructions, CRLF line ends: {str(r2[1])[:160]} instead of {str(o.hits)[:160]}")
+            if o.status == "ok" and ctx.rng.random() < self.compile_twice:
+                try:
+                    y = real.y2r.Yaml2Regex(self.ws.path("rule.yaml"), macros_from_terminal=self.macros)
+                    r1, r2 = y.produce_regex(), y.produce_regex()
+                    why = None if (r1 == r2 == o.regex) else f"produce_regex() differs between calls on one Yaml2Regex object: {r1[:200]!r} vs {r2[:200]!r}"
+                except Exception as e:  # noqa: BLE001
+                    why = f"second produce_regex() on one Yaml2Regex object raised {type(e).__name__}: {e}"
+                ctx.ran(2)
+                ctx.event("same_rule_object_compiled_twice")
+                if why:
+                    c = dsl.case_doc(text, prep, desc + " / compiled twice")
+                    c["compile_twice"] = True
+                    ctx.disagreement(c, why)
+            if o.status == "ok" and self.other_listing and ctx.rng.random() < self.reuse_twin:
+                # one matcher object used on another listing first, then on this one: what it reports for this listing
+                # is what a fresh object reports (nothing of the earlier input is carried over)
+                search = ctx.rng.choice(["all", "first"])
+                only_addr = ctx.rng.random() < 0.5
+                rs = real.match_sequence(self.ws.path("rule.yaml"), [self.other_listing, prep.path], ret="list", search=search,
+                                         only_addr=only_addr, macros=self.macros)
+                ctx.ran(2)
+                ctx.event("matcher_reused_on_second_listing")
+                want = o.hits if search == "all" else o.hits[:1]
+                if only_addr:
+                    want = [h.split("::")[0] for h in want]
+                if rs[0] != "ok" or rs[1][1] != want:
+                    c = dsl.case_doc(text, prep, desc + " / reused matcher")
+                    c["reuse"] = {"other": open(self.other_listing).read(), "search": search, "only_addr": only_addr}
+                    ctx.disagreement(c, f"one MasterOfPuppets object used on listing A then on this listing ({search}-match, only_addr={only_addr}) reports "
+                                        f"{str(rs[1][1] if rs[0] == 'ok' else rs[1:])[:200]}; a fresh object reports {str(want)[:200]}")
             if self.extra:
                 self.extra(self, doc, text, prep, o)
         return any_found
@@ -271,6 +341,24 @@ def replay_dsl(ctx, case: dict, quirks=(), classify=None):
         return
     o = dsl.evaluate(ws, prep, case["rule"])
     ctx.ran()
+    if case.get("compile_twice") and o.status == "ok":
+        y = real.y2r.Yaml2Regex(ws.path("rule.yaml"))
+        r1, r2 = y.produce_regex(), y.produce_regex()
+        if not (r1 == r2 == o.regex):
+            ctx.disagreement(case, f"produce_regex() differs between calls on one Yaml2Regex object: {r1[:200]!r} vs {r2[:200]!r}")
+    if case.get("reuse") and o.status == "ok":
+        ru = case["reuse"]
+        rs = real.match_sequence(ws.path("rule.yaml"), [ws.write("other.s", ru["other"]), prep.path], ret="list", search=ru["search"], only_addr=ru["only_addr"])
+        want = o.hits if ru["search"] == "all" else o.hits[:1]
+        if ru["only_addr"]:
+            want = [h.split("::")[0] for h in want]
+        if rs[0] != "ok" or rs[1][1] != want:
+            ctx.disagreement(case, f"reused matcher reports {str(rs[1:])[:200]}; a fresh object reports {str(want)[:200]}")
+    if case.get("crlf") and o.status == "ok":
+        p2 = ws.write("crlf.s", prep.text.replace("\n", "\r\n").encode())
+        r2 = real.match(ws.path("rule.yaml"), p2, ret="list", search="all", only_addr=False)
+        if r2[0] != "ok" or list(r2[1]) != o.hits:
+            ctx.disagreement(case, f"same rule, same instructions, CRLF line ends: {str(r2[1])[:160]} instead of {str(o.hits)[:160]}")
     if o.verdict != "held":
         key = dsl.attribute(yaml.safe_load(case["rule"]), prep, o, list(quirks)) if quirks else None
         if key is None and classify:
